@@ -314,6 +314,26 @@ def type_walker_rule(crate, prop, rule, walker, leaf, leaf_kind, desc):
                         out.append((x, t))
         return out
 
+    # a walker that keeps the types still to be looked at on a work list: the subject of the match is popped off a Vec, and
+    # an arm descends by pushing the nested type(s) onto that same Vec
+    from rules import panics as _P
+    worklists = set()
+    for bb, i, d in M.def_sites(b, op_local(sw0["discr"])):
+        if i != "term" and d["rv"]["k"] == "discr":
+            for o in origins(b, d["rv"]["pl"]["l"]):
+                if o["kind"] == "call" and fn_matches(o["t"], r"vec::Vec::<T, A>::pop$", r"VecDeque::<T, A>::pop_(front|back)$") and o["t"]["args"]:
+                    worklists.add(_P.operand_origin_ex(b, o["t"]["args"][0])[1])
+    _rec0 = recursive_calls
+
+    def recursive_calls(region):
+        out = _rec0(region)
+        for x in region:
+            t = b.term(x)
+            if t["k"] == "call" and not b.is_cleanup(x) and t["args"] and fn_matches(t, r"vec::Vec::<T, A>::(push|extend_from_slice|append)$", r"Extend<.*>>::extend$", r"iter::Extend::extend$", r"VecDeque::<T, A>::push_(front|back)$") \
+                    and _P.operand_origin_ex(b, t["args"][0])[1] in worklists and None not in worklists:
+                out.append((x, t))
+        return out
+
     others = set(by_ctor.values()) | {sw0["otherwise"]}
     for ctor in ("Array", "Group", "Paren", "Reference", "Slice", "Tuple", "Path"):
         tg = by_ctor.get(ctor)
@@ -438,8 +458,8 @@ def where_clause_rule(crate, prop, rule="C16.R11"):
         if b.is_cleanup(blk) or not fn_matches(t, r"collections::HashSet::<T, S(, A)?>::insert$") or len(t["args"]) < 2:
             continue
         desc, root = panics.operand_origin_ex(b, t["args"][1])
-        if desc.startswith("param") and root == 2:
-            inserts.append((blk, t))
+        if (desc.startswith("param") and root == 2) or re.search(r"^call .*Vec::<T, A>::pop$", desc):
+            inserts.append((blk, t))       # the type being looked at: the parameter, or the item taken off a work list
     proj_ins = [(blk, t) for blk, t in inserts if any(re.search(r"\.qself$", s) and v == 1 for s, v in _edge_constraints(b, blk))]
     proj = bool(proj_ins)
     over = False
